@@ -32,6 +32,9 @@ type Run struct {
 	points []point
 	// Diverged is set when a replayed choice did not fit (out of range, or label mismatch).
 	Diverged string
+	// Foreign is set for the root execution in shards other than 0: it must be executed (its
+	// choice points define the subtrees) but belongs to shard 0 for counting and judging.
+	Foreign bool
 }
 
 //go:norace
@@ -122,12 +125,25 @@ type item struct {
 //
 //go:norace
 func Explore(b Bounds, checkLabels bool, exec func(r *Run) bool) Stats {
+	return ExploreShard(b, checkLabels, 0, 1, exec)
+}
+
+// ExploreShard explores the subtrees of the root execution whose index ≡ shard (mod n): the
+// first-level deviations are numbered in generation order and dealt round robin; a subtree
+// belongs entirely to the shard of its first deviation. Every shard runs the root execution
+// (marked Foreign except in shard 0). The union over all shards is exactly Explore's space.
+//
+//go:norace
+func ExploreShard(b Bounds, checkLabels bool, shard, n int, exec func(r *Run) bool) Stats {
 	var st Stats
 	stack := []item{{}}
+	level1 := 0
 	for len(stack) > 0 {
 		it := stack[len(stack)-1]
 		stack = stack[:len(stack)-1]
 		r := &Run{prefix: it.prefix, labels: it.labels}
+		root := len(it.prefix) == 0
+		r.Foreign = root && shard != 0
 		cont := exec(r)
 		st.Executions++
 		st.Points += int64(len(r.points))
@@ -149,6 +165,13 @@ func Explore(b Bounds, checkLabels bool, exec func(r *Run) bool) Stats {
 					k := p.kinds[alt]
 					if k != vrt.KFree && (used[k]+1 > b[k] || (b[0] > 0 && total+1 > b[0])) {
 						continue
+					}
+					if root && n > 1 {
+						mine := level1%n == shard
+						level1++
+						if !mine {
+							continue
+						}
 					}
 					np := make([]int, i+1)
 					for j := 0; j < i; j++ {
